@@ -267,6 +267,12 @@ class Transaction:
             raise ValueError("negative update_serial() value")
         if isinstance(name, str):
             name = dns.name.from_text(name, None)
+        if name == dns.name.empty:
+            # The default means "the origin"; spell it the way the manager does so
+            # that it also works when names are not relativized.
+            _, _, origin = self._origin_information()
+            if origin is not None:
+                name = origin
         rdataset = self._get_rdataset(name, dns.rdatatype.SOA, dns.rdatatype.NONE)
         if rdataset is None or len(rdataset) == 0:
             raise KeyError
